@@ -39,10 +39,8 @@ Definition check_sub (V : view) (D : decor) (q : subq) : bool :=
     | None => false
     | Some vt =>
       let dt := describe_type V D vt in
-      let keepf := fun f : dfield => incl || negb (df_isdep f) in
-      let keepe := fun e : denum => incl || negb (de_isdep e) in
-      let ef := option_map (fun l => map df_name (filter keepf l)) (dt_fields dt) in
-      let ee := option_map (fun l => map de_name (filter keepe l)) (dt_enums dt) in
+      let ef := option_map (fun l => map df_name (fields_resolver incl l)) (dt_fields dt) in
+      let ee := option_map (fun l => map de_name (enums_resolver incl l)) (dt_enums dt) in
       let qn := match root_name (v_types V) (v_query V) with Some n => n | None => [] end in
       names_eqb ef fields && names_eqb ee enums && bytes_eqb qn typename
     end
